@@ -272,7 +272,7 @@ func runC14(a *A) {
 					}
 					want = []string{fmt.Sprintf("%s(%s,false,result)", d.printer, arg)}
 				} else {
-					want = []string{fmt.Sprintf("readOffsetOrSize(data,pos+1,%v)", large), fmt.Sprintf("printJSONValue(%d,data[readOffsetOrSize(data,pos+1,large)#0:],false,result)", k)}
+					want = []string{fmt.Sprintf("readOffsetOrSize(data,pos+1,%v)", large), fmt.Sprintf("printJSONValue(%d,data[LE(%d,data[pos+1]):],false,result)", k, map[bool]int{false: 2, true: 4}[large])}
 				}
 				a.check(strings.Join(got, " ; ") == strings.Join(want, " ; "), "C14-R2", key, w.pos(pe.Pos()), strings.Join(want, " ; "),
 					fmt.Sprintf("a value entry of type %s in the %s format is handled by [%s]; MySQL stores a %d-byte payload %s, so it must be [%s]", declared[k], cls, strings.Join(got, " ; "), d.width,
